@@ -17,7 +17,8 @@ RULE = ("(a) random histories of store / overwrite / delete on real flat_hash.da
         "return the reference model's entry (known keys/values, eclass data, chf), `in`, and keys() must equal the "
         "model's key set; a reader that opened the old file before an overwrite must still read the complete old bytes. "
         "(b) crash part: for generated stores (first store creating the directory, overwrite of an existing entry; both "
-        "layouts) EVERY numbered filesystem operation of the store x {crash-before, crash-after, torn, eio} is run in a "
+        "layouts; first stores into a not yet existing category directory, into an existing one and into a cache whose "
+        "location is missing) EVERY numbered filesystem operation of the store x {crash-before, crash-after, torn, eio} is run in a "
         "forked child (vt/fault.py); afterwards fresh objects must read the old or the new complete entry, all other "
         "entries unchanged, and keys() must list only real cpvs. Non-trivial = an entry with >=2 eclasses or a value "
         "containing '=' / non-ASCII / tab, an overwrite, or a crash run that died inside the store; distinct by "
@@ -276,24 +277,48 @@ def run_history(ctx, rng, layout, root, nops, replay_ops=None):
 # ------------------------------------------------------------------------------------------------------------------
 # (b) crash / EIO enumeration of a store
 # ------------------------------------------------------------------------------------------------------------------
-def gen_scenario(rng, layout, first, tiny=False):
-    """-> {"layout","pre": {cpv: spec}, "cpv", "spec", "first": bool}; small entries keep the operation count moderate."""
+FIRST_VARIANTS = ("new-category", "existing-category", "missing-location", "any")
+
+
+def gen_scenario(rng, layout, first, tiny=False, variant="any"):
+    """-> {"layout","pre": {cpv: spec}, "cpv", "spec", "first": bool, "variant"}; small entries keep the operation count
+    moderate.  First-store variants: "new-category" (the category directory does not exist yet: pkgcore's
+    mkdir-and-retry branch), "existing-category", "missing-location" (empty cache whose location directory itself is
+    missing; md5-cache layout), "any" (random key)."""
     pre = {}
-    for _ in range(rng.randrange(1, 4)):
-        pre[gen.fresh_key(rng, pre)] = gen.entry_spec(rng, layout, small=True)
+    if not (first and variant == "missing-location"):
+        for _ in range(rng.randrange(1, 4)):
+            pre[gen.fresh_key(rng, pre)] = gen.entry_spec(rng, layout, small=True)
     if first:
-        cpv = gen.fresh_key(rng, pre)
-        # half of the first stores go into a directory that does not exist yet
-        if rng.random() < 0.5 and "/" in sorted(pre)[0]:
-            cpv = sorted(pre)[0].rsplit("/", 1)[0] + "/" + gen.name_token(rng) + "-7"
-            if any(model.keys_conflict(cpv, e) for e in pre):
-                cpv = gen.fresh_key(rng, pre)
+        cpv = None
+        if variant in ("new-category", "missing-location"):
+            for _ in range(100):
+                cat = rng.choice(["newcat", "zz-new", "app-new"]) + gen.name_token(rng, 1, 3)
+                cand = (cat + "/" if (variant == "new-category" or rng.random() < 0.5) else "") + gen.name_token(rng).rstrip("-") + "-7"
+                if not any(model.keys_conflict(cand, e) or e.startswith(cat + "/") for e in pre):
+                    cpv = cand
+                    break
+        elif variant == "existing-category":
+            deep = sorted(k for k in pre if "/" in k)
+            if deep:
+                cand = deep[0].rsplit("/", 1)[0] + "/" + gen.name_token(rng).rstrip("-") + "-7"
+                if not any(model.keys_conflict(cand, e) for e in pre):
+                    cpv = cand
+        if cpv is None:
+            cpv = gen.fresh_key(rng, pre)
     else:
         cpv = rng.choice(sorted(pre))
     spec = gen.entry_spec(rng, layout, small=True, tiny=tiny)
     if not first and spec == pre[cpv]:
         spec = dict(spec, chf=spec["chf"] + 1)
-    return {"layout": layout, "pre": pre, "cpv": cpv, "spec": spec, "first": first}
+    return {"layout": layout, "pre": pre, "cpv": cpv, "spec": spec, "first": first, "variant": variant if first else "overwrite"}
+
+
+# scenario plan, cycled: (layout, first, variant)
+SCENARIO_PLAN = (
+    ("flat", True, "new-category"), ("md5", False, None), ("md5", True, "missing-location"), ("flat", False, None),
+    ("md5", True, "new-category"), ("flat", True, "existing-category"), ("md5", True, "existing-category"), ("flat", True, "any"),
+)
 
 
 def build_template(sc, tdir):
@@ -373,8 +398,12 @@ def judge_after(ctx, sc, wdir, mode, k, res, ops):
             ctx.violation("neighbour-entry-damaged", dict(base, rule=okind, other=other, observed=ogot))
 
 
-def enumerate_scenario(ctx, sc, sc_id, tag, only=None, split=True, reserve=20):
-    """Dry-run for N, then every k x kind (split over the shards by run index).  `only` = [(mode, k)] for replay."""
+def enumerate_scenario(ctx, sc, sc_id, tag, only=None, split=True, reserve=20, phase=None):
+    """Dry-run for N, then every k x kind (split over the shards by run index).  `only` = [(mode, k)] for replay.
+
+    phase: None = all runs; "structural" = the operations other than the per-character writes (open, mkdir, close, chown,
+    chmod, rename ...), "writes" = the write operations.  The workload runs the structural phase of every scenario before
+    any write phase, so that a starved run still covers every structurally different crash point."""
     from .. import fault
 
     scratch = os.environ.get("VT_SCRATCH") or "/var/tmp"
@@ -396,15 +425,18 @@ def enumerate_scenario(ctx, sc, sc_id, tag, only=None, split=True, reserve=20):
         return None
     ops = dry["ops"]
     n = dry["nops"]
-    if only is None:
+    if only is None and phase != "writes":
         # counted once per scenario (shard 0); the completed dry run itself is a data point too
         if not split or ctx.shard == 0:
             ctx.count("crash_scenarios")
-            ctx.count("crash_scenario:%s:%s" % (sc["layout"], "first-store" if sc["first"] else "overwrite"))
+            ctx.count("crash_scenario:%s:%s" % (sc["layout"], "first-store:" + str(sc.get("variant", "any")) if sc["first"] else "overwrite"))
+            ctx.count("crash_ops_structural", sum(1 for o in ops if not fault.is_write_op(o)))
             ctx.count("crash_points_enumerated", n)
             judge_after(ctx, sc, wdir, "count", 0, dry, ops)
     runs = only if only is not None else [(mode, k) for k in range(1, n + 1) for mode in fault.KINDS
                                          if mode != "torn" or fault.is_write_op(ops[k - 1])]
+    if only is None and phase is not None:
+        runs = [(mode, k) for mode, k in runs if fault.is_write_op(ops[k - 1]) == (phase == "writes")]
     for idx, (mode, k) in enumerate(runs):
         if only is None and split and idx % ctx.nshards != ctx.shard:
             continue
@@ -416,6 +448,7 @@ def enumerate_scenario(ctx, sc, sc_id, tag, only=None, split=True, reserve=20):
         res = injected_store(sc, wdir, mode, k)
         ctx.count("crash_runs")
         ctx.count("crash_runs:" + mode)
+        ctx.count("crash_runs_at:" + ("write" if fault.is_write_op(ops[k - 1]) else "structural") if 0 < k <= len(ops) else "crash_runs_at:other")
         ctx.count("run_status:" + str(res.get("status")))
         if res.get("status") in ("child-died", "harness-error"):
             ctx.set_inconclusive("C27 injected run %s/%s/%d: %s %s" % (sc_id, mode, k, res.get("status"), res.get("tb") or res.get("raw")))
@@ -459,23 +492,30 @@ def run(ctx):
             shutil.rmtree(root, ignore_errors=True)
             done += 1
 
-    # (a) two histories first (every monitor reached even on a starved machine) ...
-    histories(2)
+    # (a) one history first (every monitor reached even on a starved machine) ...
+    histories(1)
     # (b) ... then the crash enumeration.  Scenarios are the same in every shard (seeded from VERIF_SEED only); the
-    # (k, kind) runs are split over the shards.  At most 60% of the soft budget.
+    # (k, kind) runs are split over the shards.  First the structural operations of EVERY scenario (first stores into a
+    # new category directory / a missing location come first), then the per-character write operations.
     nsc = ctx.budget(4, 40)
     total = min(ctx.time_left(), 1e6)
     reserve = 0.4 * total if total < 1e6 else 20
+    scenarios = []
     for i in range(nsc):
         srng = random.Random(ctx.seed * 7919 + i)
-        layout = model.LAYOUTS[i % 2]
-        first = (i // 2) % 2 == 1  # overwrites of an existing entry first
-        sc = gen_scenario(srng, layout, first, tiny=ctx.quick)
-        enumerate_scenario(ctx, sc, "s%d" % i, "s%d" % i, reserve=reserve)
-        if i == 0 and ctx.shard == 0:
-            ctx.sample({"crash_scenario": sc})
+        layout, first, variant = SCENARIO_PLAN[i % len(SCENARIO_PLAN)]
+        scenarios.append(gen_scenario(srng, layout, first, tiny=ctx.quick, variant=variant or "any"))
+    if ctx.shard == 0:
+        ctx.sample({"crash_scenario": scenarios[0]})
+    for i, sc in enumerate(scenarios):
+        enumerate_scenario(ctx, sc, "s%d" % i, "s%d" % i, reserve=min(reserve, 30), phase="structural")
+        if ctx.out_of_time(min(reserve, 30)):
+            break
+    histories(1)
+    for i, sc in enumerate(scenarios):
         if ctx.out_of_time(reserve):
             break
+        enumerate_scenario(ctx, sc, "s%d" % i, "s%dw" % i, reserve=reserve, phase="writes")
     # (a) ... then the remaining histories
     histories(nhist)
 
